@@ -56,19 +56,35 @@ fn rsplit_body<const N: usize>(s: &SymStr<N>) {
 	witness!(at.is_some() && s.len == N, "a name with a double underscore");
 }
 
-//# {"id":"c14_nest_type_alpha3","props":["C14"],"tier":"quick","cap":1200,"bound":"every valid class name of length 1..=3 over the alphabet 0 1 a C _ / $ ; unwind 6","fns":["dukenest::nests_mapper_run::NestTypeA::new","dukenest::nester_jar::strip_local_class_prefix"]}
-//# {"id":"c14_rsplit_alpha4","props":["C14"],"tier":"quick","cap":1500,"bound":"every valid class name of length 1..=4 over the alphabet 0 1 a C _ / $ ; unwind 7","fns":["dukenest::nests_mapper_run::rsplit_underscore"]}
-//# {"id":"c14_inner_name_cases","props":["C14"],"tier":"quick","cap":1500,"bound":"inner_name on nest class names {Foo, Foo$Bar, Foo$1Bar} x inner names {Bar, 1Bar, 12, Baz} x mapped names {M, p/M, p/C_7, C_x} chosen symbolically; unwind 12","fns":["dukenest::nests_mapper_run::{inner_name,construct_inner_name_from_anonymous_number}"]}
-//# {"id":"c14_nest_type_alpha5","props":["C14"],"tier":"thorough","cap":3000,"bound":"every valid class name of length 1..=5 over the alphabet 0 1 a C _ / $ ; unwind 8","fns":["NestTypeA::new","strip_local_class_prefix"]}
+//# {"id":"c14_nest_type_alpha3","props":["C14"],"tier":"quick","cap":1200,"bound":"every valid class name of length 1..=3 over the alphabet 0 1 a C _ / $ ; unwind 6","z":["stubbing"],"fns":["dukenest::nests_mapper_run::NestTypeA::new","dukenest::nester_jar::strip_local_class_prefix"]}
+//# {"id":"c14_rsplit_alpha4","props":["C14"],"tier":"quick","cap":1500,"bound":"every valid class name of length 1..=4 over the alphabet 0 1 a C _ / $ ; unwind 7","z":["stubbing"],"fns":["dukenest::nests_mapper_run::rsplit_underscore"]}
+//# {"id":"c14_inner_name_cases","props":["C14"],"tier":"quick","cap":1500,"bound":"inner_name on nest class names {Foo, Foo$Bar, Foo$1Bar} x inner names {Bar, 1Bar, 12, Baz} x mapped names {M, p/M, p/C_7, C_x} chosen symbolically; unwind 12","z":["stubbing"],"fns":["dukenest::nests_mapper_run::{inner_name,construct_inner_name_from_anonymous_number}"]}
+//# {"id":"c14_nest_type_alpha5","props":["C14"],"tier":"thorough","cap":3000,"bound":"every valid class name of length 1..=5 over the alphabet 0 1 a C _ / $ ; unwind 8","z":["stubbing"],"fns":["NestTypeA::new","strip_local_class_prefix"]}
 proofs! {
 	#[cfg_attr(kani, kani::unwind(6))]
+	#[cfg_attr(kani, kani::stub(std::alloc::alloc, crate::hstubs::alloc_stub))]
+	#[cfg_attr(kani, kani::stub(std::alloc::alloc_zeroed, crate::hstubs::alloc_zeroed_stub))]
+	#[cfg_attr(kani, kani::stub(std::alloc::realloc, crate::hstubs::realloc_stub))]
+	#[cfg_attr(kani, kani::stub(std::alloc::dealloc, crate::hstubs::dealloc_stub))]
 	fn c14_nest_type_alpha3() { let s = SymStr::<3>::over(NEST_ALPHABET, 1, 3); nest_type_body(&s); }
 	#[cfg_attr(kani, kani::unwind(8))]
+	#[cfg_attr(kani, kani::stub(std::alloc::alloc, crate::hstubs::alloc_stub))]
+	#[cfg_attr(kani, kani::stub(std::alloc::alloc_zeroed, crate::hstubs::alloc_zeroed_stub))]
+	#[cfg_attr(kani, kani::stub(std::alloc::realloc, crate::hstubs::realloc_stub))]
+	#[cfg_attr(kani, kani::stub(std::alloc::dealloc, crate::hstubs::dealloc_stub))]
 	fn c14_nest_type_alpha5() { let s = SymStr::<5>::over(NEST_ALPHABET, 1, 5); nest_type_body(&s); }
 	#[cfg_attr(kani, kani::unwind(7))]
+	#[cfg_attr(kani, kani::stub(std::alloc::alloc, crate::hstubs::alloc_stub))]
+	#[cfg_attr(kani, kani::stub(std::alloc::alloc_zeroed, crate::hstubs::alloc_zeroed_stub))]
+	#[cfg_attr(kani, kani::stub(std::alloc::realloc, crate::hstubs::realloc_stub))]
+	#[cfg_attr(kani, kani::stub(std::alloc::dealloc, crate::hstubs::dealloc_stub))]
 	fn c14_rsplit_alpha4() { let s = SymStr::<4>::over(NEST_ALPHABET, 1, 4); rsplit_body(&s); }
 
 	#[cfg_attr(kani, kani::unwind(12))]
+	#[cfg_attr(kani, kani::stub(std::alloc::alloc, crate::hstubs::alloc_stub))]
+	#[cfg_attr(kani, kani::stub(std::alloc::alloc_zeroed, crate::hstubs::alloc_zeroed_stub))]
+	#[cfg_attr(kani, kani::stub(std::alloc::realloc, crate::hstubs::realloc_stub))]
+	#[cfg_attr(kani, kani::stub(std::alloc::dealloc, crate::hstubs::dealloc_stub))]
 	fn c14_inner_name_cases() {
 		fn oc(s: &'static str) -> &'static ObjClassNameSlice { unsafe { ObjClassNameSlice::from_inner_unchecked(JavaStr::from_str(s)) } }
 		let class = match sym::u8_in(0, 2) { 0 => "Foo", 1 => "Foo$Bar", _ => "Foo$1Bar" };
